@@ -17,6 +17,7 @@ func HarnessC40Intersect() {
 	}
 	n := zz.IntRange(1, k)
 	var m Intersect[int8, int]
+	kn := false
 	starts := make([]int8, n)
 	ends := make([]int8, n)
 	for i := 0; i < n; i++ {
@@ -27,9 +28,24 @@ func HarnessC40Intersect() {
 		for j := 0; j < i; j++ {
 			inter = zz.Or(inter, zz.And(starts[j] <= e, s <= ends[j]))
 		}
+		// Recorded finding (known_findings.json, C40/intersect-bridges-touching-entries): the new
+		// interval intersects two consecutive entries that touch (x.End+1 == y.Start).
+		{
+			havePrev := false
+			var px, pe int8
+			for ent := range m.Entries() {
+				if havePrev {
+					touch := zz.And(pe+1 == ent.Start, pe < ent.Start)
+					both := zz.And(zz.And(px <= e, s <= pe), zz.And(ent.Start <= e, s <= ent.End))
+					kn = zz.Or(kn, zz.And(touch, both))
+				}
+				havePrev, px, pe = true, ent.Start, ent.End
+			}
+		}
 		disjoint := m.Insert(s, e, i)
 		zz.Assert(zz.Iff(disjoint, !inter), "C40/insert-reports-disjointness")
 	}
+	zz.Known("C40/intersect-bridges-touching-entries", kn)
 	// structural invariants
 	first := true
 	prevEnd := int8(0)
